@@ -2,6 +2,7 @@ package hx
 
 import (
 	"strings"
+	"time"
 
 	"github.com/vektah/gqlparser/v2/ast"
 	"github.com/vektah/gqlparser/v2/formatter"
@@ -10,7 +11,15 @@ import (
 
 // ShrinkQuery delta-minimises a query text: it repeatedly removes one selection, one directive or one
 // unused fragment while `fails` still holds, and returns the smallest text found.
-func ShrinkQuery(query string, fails func(q string) bool, budget int) string {
+func ShrinkQuery(query string, fails0 func(q string) bool, budget int) string {
+	// wall-clock bound: a shrink must finish well inside the parent's per-case watchdog
+	deadline := time.Now().Add(40 * time.Second)
+	fails := func(q string) bool {
+		if time.Now().After(deadline) {
+			return false
+		}
+		return fails0(q)
+	}
 	best := query
 	for round := 0; round < 40 && budget > 0; round++ {
 		doc, err := parser.ParseQuery(&ast.Source{Input: best})
